@@ -8,7 +8,7 @@ EXTRA_TARGETS = {
     'C07': ['XdocModel.Proofs.GoogleMargin', 'XdocModel.Proofs.PackageNodup', 'XdocModel.Proofs.PackageOnce'],
     'C04': ['XdocModel.Proofs.Compose2', 'XdocModel.Proofs.RequiresMulti'],
     'C08': ['XdocModel.Proofs.Compose', 'XdocModel.Proofs.Compose2'],
-    'C10': ['XdocModel.Proofs.Compose2', 'XdocModel.Proofs.PackageNodup', 'XdocModel.Proofs.PackageOnce'],
+    'C10': ['XdocModel.Proofs.Compose2', 'XdocModel.Proofs.PackageNodup', 'XdocModel.Proofs.PackageOnce', 'XdocModel.Proofs.ExitStatus'],
     'C11': ['XdocModel.Proofs.Compose2'],
     'C13': ['XdocModel.Proofs.C13Labels'],
     'C14': ['XdocModel.Proofs.C14Total'],
@@ -53,6 +53,9 @@ EXTRA_THEOREMS['C10'] += [('Xdoc.Static.packageModpaths_nodup', 'full'), ('Xdoc.
 EXTRA_THEOREMS['C08'] += [('Xdoc.Compose2.parse_then_file_line_google', 'full'), ('Xdoc.Compose2.google_block_tiled', 'full'),
                           ('Xdoc.Compose2.parse_then_part_on_file_line', 'full'),
                           ('Xdoc.Compose2.google_lineno_counts_splitlines_witness', 'witness')]
+
+EXTRA_THEOREMS['C10'] += [('Xdoc.C10.exitCode_le_one', 'full'), ('Xdoc.C10.osStatus_exitCode', 'full'), ('Xdoc.C10.osStatus_nonzero_iff', 'full'),
+                          ('Xdoc.C10.rawExit_nonzero_iff', 'full'), ('Xdoc.C10.raw_count_wraps', 'witness')]
 
 
 def _replay_K_C08_c(ctx, finding):
@@ -100,7 +103,11 @@ EXTRA_TEXT = {
             "ADDED (Proofs/Compose2.lean, C10∘C09∘C02): the hypotheses 'every run returns' are DISCHARGED from C09's `return_mode_never_raises`: "
             "`tally_adds_up_unconditional`, `all_runs_enabled_once_unconditional`, `exit_nonzero_iff_failed_unconditional`, `doctestModule_never_aborts` hold for every "
             "execution oracle that satisfies C09's doctest-frame hypothesis (`frames_needed` shows it cannot be dropped). BaseExceptions are a limit of the model (no "
-            "ExecResult constructor), see K-C10-a/b."),
+            "ExecResult constructor), see K-C10-a/b. "
+            "ADDED (Proofs/ExitStatus.lean, fourth session): the status as the PARENT process reads it (low eight bits of what `sys.exit` is given) — "
+            "`exitCode_le_one`, `osStatus_exitCode`, `osStatus_nonzero_iff` (for every command result `$? != 0` iff the run aborted or counted a failure), so every "
+            "`exit ... != 0` theorem above is a statement about `$?`; `rawExit_nonzero_iff` + witness `raw_count_wraps` (handing the failure count itself to "
+            "`sys.exit` agrees before truncation and reads 256 failures as success after it: seeded change C10-6A)."),
     'C11': (" ADDED (Proofs/Compose2.lean, C11∘C04): `default_options_every_run(_outcome)` — default options behave like a leading block directive in EVERY doctest of a "
             "session, whatever ran before (any two histories), for options known to the template (`unknown_option_order` shows why that is needed)."),
     'C14': (" ADDED (Proofs/C14Total.lean): `group_never_fails_after_label` (the `assert prev_source is not None, 'impossible'` of `_group_labeled_lines` really is impossible "
